@@ -1,5 +1,4 @@
-import Rp2.Model.TaxReport
-import Rp2.Model.OtherReports
+import Rp2.Model.Cli
 open Rp2
 
 def hexVal (c : Char) : Nat :=
@@ -9,6 +8,25 @@ def unhex (s : String) : String :=
     | a :: b :: t, acc => go t (acc ++ [(hexVal a * 16 + hexVal b).toUInt8])
     | _, acc => acc
   (String.fromUTF8? (ByteArray.mk (go s.toList []).toArray)).getD ""
+
+def parseRat (s : String) : Rat :=
+  match s.splitOn "/" with
+  | [n, d] => (n.toInt! : Rat) / (d.toNat! : Rat)
+  | _ => 0
+
+def parseCell (tok : String) : Cell :=
+  if tok == "E" then .empty
+  else if tok.startsWith "N" then .num (parseRat (tok.drop 1).toString)
+  else
+    match (tok.drop 1).toString.splitOn ":" with
+    | [h, info] =>
+      let ts : TsInfo :=
+        if info == "B" then .bad else if info == "Z" then .naive
+        else match (info.drop 1).toString.splitOn "," with
+          | [us, off] => .aware us.toInt! off.toInt!
+          | _ => .bad
+      .str (unhex h) ts
+    | _ => .empty
 
 structure AssetIn where
   name : String
@@ -26,6 +44,10 @@ structure RCase where
   sched : List (Int × Method) := []
   accts : List (Nat × String × String) := []
   assets : List AssetIn := []
+  cfgSched : List (Int × String) := []
+  cfgAssets : List String := []
+  pcfg : Config := ⟨[], [], [], [], [], []⟩
+  grids : List (String × List (List Cell)) := []      -- (sheet name, rows reversed), newest first
 
 def optInt (s : String) : Option Int := if s == "-" then none else s.toInt?
 def parseMethod : String → Method
@@ -98,6 +120,32 @@ def runJ (c : RCase) (sortedYears : Bool) : List String :=
         acc ++ [s!"JS {sh.name} {match sh.prevRef with | none => "-" | some (n, r) => s!"{n}:{r}"} {sh.closeRow}"] ++
         sh.rows.map (fun r => s!"JR {r.sheet} {r.row} {r.month} {r.day} {r.typ} {so sr r.pAmt} {so sr r.pYen} {so sr r.sAmt} {so sr r.sYen} {sr r.fee}")) []
 
+def showTRow (r : TRow) : String :=
+  s!"TR {r.sheet.replace " " "_"} {r.row} {r.asset} {sr r.amt} {sr r.proceeds} {so sr r.cost} {sr r.gain} {b01 r.long} {showDate r.sold} {so showDate r.acquired} {r.evK}/{r.evN} {so toString r.lotK}/{so toString r.lotN}"
+def showJ (shs : List JSheet) : List String :=
+  shs.foldl (fun acc sh =>
+    acc ++ [s!"JS {sh.name} {match sh.prevRef with | none => "-" | some (n, r) => s!"{n}:{r}"} {sh.closeRow}"] ++
+    sh.rows.map (fun r => s!"JR {r.sheet} {r.row} {r.month} {r.day} {r.typ} {so sr r.pAmt} {so sr r.pYen} {so sr r.sAmt} {so sr r.sYen} {sr r.fee}")) []
+
+def runCli (c : RCase) (script method lang pfx only plugin : String) : List String :=
+  let acctName (i : Nat) : String := match c.accts.find? (·.1 == i) with | some (_, e, h) => s!"{e}_{h}" | none => ""
+  let holderOf (i : Nat) : String := match c.accts.find? (·.1 == i) with | some (_, _, h) => h | none => ""
+  let opt (s : String) : Option String := if s == "-" then none else some s
+  let o : Cli.Options := { script, method := opt method, lang := opt lang, fromD := c.fromDay, toD := c.toDay, allowNeg := c.allowNeg,
+                           only := opt only, pluginFlag := plugin == "1", pfx := if pfx == "-" then "" else pfx, cfgSched := c.cfgSched.reverse }
+  let sheets : List Cli.AssetIn := c.assets.reverse.map fun a => ⟨a.name, a.ins.reverse, a.outs.reverse, a.intras.reverse⟩
+  let out := if c.grids.isEmpty then Cli.run o acctName holderOf c.cfgAssets.reverse sheets
+             else Cli.runCells o c.pcfg (c.grids.reverse.map fun g => (g.1, g.2.reverse))
+  [s!"EXIT {out.exit} {out.stage.replace " " "_"}", s!"LEGEND {out.legendMethod.replace " " "_"}"] ++
+  out.files.foldl (fun acc (name, rep) =>
+    acc ++ [s!"FILE {name}"] ++ (match rep with
+      | .full rows => rows.map showRow
+      | .tax rows sheets => rows.map showTRow ++ [s!"SHEETS {",".intercalate (sheets.map (·.replace " " "_"))}"]
+      | .openPos a e =>
+        a.map (fun r => s!"OA {r.row} {r.asset} {r.holder} {sr r.bal} {sr r.unit} {sr r.cost} {sr r.weight}") ++
+        e.map (fun r => s!"OE {r.row} {r.asset} {r.holder} {r.acct} {sr r.bal} {sr r.unit} {sr r.cost} {sr r.weight}")
+      | .jp shs => showJ shs)) []
+
 def updHead (c : RCase) (f : AssetIn → AssetIn) : RCase :=
   match c.assets with
   | [] => c
@@ -132,6 +180,20 @@ partial def loop (h : IO.FS.Stream) (c : RCase) : IO Unit := do
     loop h c
   | ["JP", sy] =>
     for l in runJ c (sy == "1") do IO.println l
+    IO.println "END"
+    loop h c
+  | ["A", x] => loop h { c with pcfg := { c.pcfg with assets := c.pcfg.assets ++ [unhex x] } }
+  | ["X", x] => loop h { c with pcfg := { c.pcfg with exchanges := c.pcfg.exchanges ++ [unhex x] } }
+  | ["H", x] => loop h { c with pcfg := { c.pcfg with holders := c.pcfg.holders ++ [unhex x] } }
+  | ["C", "in", f, col] => loop h { c with pcfg := { c.pcfg with inCols := c.pcfg.inCols ++ [(f, col.toNat!)] } }
+  | ["C", "out", f, col] => loop h { c with pcfg := { c.pcfg with outCols := c.pcfg.outCols ++ [(f, col.toNat!)] } }
+  | ["C", "intra", f, col] => loop h { c with pcfg := { c.pcfg with intraCols := c.pcfg.intraCols ++ [(f, col.toNat!)] } }
+  | ["S", a] => loop h { c with grids := (unhex a, []) :: c.grids }
+  | "R" :: cells => loop h { c with grids := match c.grids with | [] => [] | (n, rs) :: t => (n, cells.map parseCell :: rs) :: t }
+  | ["CSCHED", y, m] => loop h { c with cfgSched := (y.toInt!, m) :: c.cfgSched }
+  | ["CFGASSET", n] => loop h { c with cfgAssets := unhex n :: c.cfgAssets }
+  | ["CLI", script, method, lang, pfx, only, plugin] =>
+    for l in runCli c script method lang pfx (if only == "-" then "-" else unhex only) plugin do IO.println l
     IO.println "END"
     loop h c
   | ["RESET"] => loop h {}
